@@ -161,9 +161,11 @@ def pure_jobs(ctx):
         for cq in ("rules.RuleTest", "schema.ValidatedData", "data.FilteredData", "data.FilteredDataBinaryOp", "data.FilteredDataItem"):
             c = prog.cls(cq)
             seen = set()
+            from .astutil import construction_helpers
+            ctor_parts = construction_helpers(prog, c)
             for k in c.mro:
                 for name, f in k.methods.items():
-                    if name in seen or name in ("__init__", "__new__", "_test"):
+                    if name in seen or name in ("__init__", "__new__") or name in ctor_parts:
                         continue
                     seen.add(name)
                     if len([p for p in f.params if p.default is None and p.kind in ("POSITIONAL_OR_KEYWORD",)]) != 1:
